@@ -202,8 +202,13 @@ func run(c *hc.Ctx) error {
 		}
 		// a depth that is harmless everywhere, then the depth of a full 10 MiB decompressed payload
 		crashSearch(c, cands[0], 10_000, 2*time.Minute)
+		// (10 MiB - 4) / 4 levels: the largest nesting a gzip-decompressed payload can carry
+		crashSearch(c, cands[0], (10<<20)/4-1, 5*time.Minute)
 		if c.Thorough() {
-			crashSearch(c, cands[0], (10<<20)/4-1, 20*time.Minute)
+			if len(cands) > 1 {
+				crashSearch(c, cands[1], (10<<20)/4-1, 10*time.Minute)
+			}
+			crashSearch(c, cands[len(cands)-1], (16<<20)/4-8, 10*time.Minute) // a full 16 MiB frame
 		}
 	}()
 	defer func() { <-crashDone }()
